@@ -36,7 +36,7 @@ RULE = ("fbshape streams: one feedback edge of shape TS<Int> | TSB{a,b} | TSB{a,
         "add/remove/re-add incl. no-op operations, writes in the start cycle, in consecutive cycles, with gaps and in the last "
         "cycle before the end time; recorders on the producer and on the feedback port log per cycle the delta (which "
         "positions ticked with which values, added/removed) and the full value; thorough adds every TSB{a,b} history of 4 "
-        "cycles x every initial delta and every TSS history of 3 cycles over 2 elements (with/without initial delta). A case is non-trivial when the reader "
+        "cycles x every initial delta and every TSS history of 4 cycles over 2 elements (with/without initial delta). A case is non-trivial when the reader "
         "ticked in >=2 cycles; distinct by case text")
 TRUSTED = ["the recorders read modified()/valid()/value() per position (TSS added()/removed(), TSD modified_items()/"
            "removed_keys()) of the feedback port; values are Int; capture/apply of deltas in depth is C20's subject",
@@ -262,7 +262,8 @@ def check_trace(case, out):
                 bad.append("[untimely] the reader ticked although nothing was written one step earlier: t=%d saw %s, nothing written at t=%d%s"
                            % (t, fmt(kind, r), t - 1, "" if k else " and no initial delta was declared"))
             elif r is None:
-                bad.append("[lost] a written delta was not delivered one step later: t=%d the reader did not tick; written at t=%d: %s" % (t, t - 1, fmt(kind, exp_r)))
+                bad.append("[lost] a written delta was not delivered one step later: t=%d the reader did not tick; %s: %s"
+                           % (t, ("written at t=%d" % (t - 1)) if k else "declared initial delta", fmt(kind, exp_r)))
             else:
                 extra = sorted(set(rm) - set(em)) + sorted(rr - er)
                 missing = sorted(set(em) - set(rm)) + sorted(er - rr)
@@ -444,11 +445,11 @@ def exhaustive_small(start_idx):
                     lines.append("c " + w2s("fix", m, set()))
             lines += ["c -", "run"]
             cases.append(Case(lines)); idx += 1
-    # every TSS history of 3 cycles over elements {1,2}: per cycle nothing / +1 / -1 / +2 / -2 / +1,+2 / -1,-2 / +1,-2 / -1,+2
+    # every TSS history of 4 cycles over elements {1,2}: per cycle nothing / +1 / -1 / +2 / -2 / +1,+2 / -1,-2 / +1,-2 / -1,+2
     sopts = [None, ({1: 0}, set()), ({}, {1}), ({2: 0}, set()), ({}, {2}), ({1: 0, 2: 0}, set()), ({}, {1, 2}),
              ({1: 0}, {2}), ({2: 0}, {1})]
     for init in (None, ({1: 0}, set())):
-        for hist in itertools.product(sopts, repeat=3):
+        for hist in itertools.product(sopts, repeat=4):
             if all(h is None for h in hist):
                 continue
             lines = ["case %d" % idx, "shape tss" + ((" init " + w2s("set", init[0], init[1])) if init else "")]
@@ -460,7 +461,7 @@ def exhaustive_small(start_idx):
 
 
 def streams(rng, tier, seed):
-    n = 700 if tier == "quick" else 12000
+    n = 700 if tier == "quick" else 20000
     cases = [gen_case(rng, i) for i in range(n)]
     if tier != "quick":
         cases += exhaustive_small(n)
